@@ -140,8 +140,8 @@ Proof. vm_compute. split; reflexivity. Qed.
 Lemma repeat_late_check_witness :
   op_repeat w_cap w_mem 16 100000 = (ROom, w_mem, [EHost 1600000; ECheck 1600024 false]) /\
   fst (fst (op_repeat w_cap w_mem 16 100000000000)) = RAbort /\
-  fst (fst (op_pad w_cap w_mem 16 (-1))) = RPanic /\
-  fst (fst (op_pad w_cap w_mem 16 100000000000000)) = RAbort.
+  fst (fst (op_pad true w_cap w_mem 16 (-1))) = RPanic /\
+  fst (fst (op_pad true w_cap w_mem 16 100000000000000)) = RAbort.
 Proof. vm_compute. repeat split; reflexivity. Qed.
 
 (* the strongest true statement for the late-checked primitives: when they answer Ok the invariant still
